@@ -181,7 +181,8 @@ def main(argv=None):
     evidence = mod.evidence(args.tier, seed, scens, [r for r in results], time.time() - t0)
     evidence['violations'] = nviol
     os.makedirs(EVIDENCE_DIR, exist_ok=True)
-    with open(os.path.join(EVIDENCE_DIR, prop + '.json'), 'w') as fobj:
+    # a run restricted with --only covers part of the scenario list: it does not replace the evidence of a full run
+    with open(os.path.join(EVIDENCE_DIR, prop + ('.partial.json' if args.only else '.json')), 'w') as fobj:
         json.dump(evidence, fobj, indent=1, sort_keys=True, default=str)
     cov = evidence['coverage']
     brief = {k: cov[k] for k in ('states', 'transitions', 'traces_validated_against_impl', 'evaluations',
